@@ -1375,7 +1375,8 @@ def run(ctx):
     ctx.assume += [
         "root data are dyadic so that Format.from_jds(Format.to_jds(v)) = v exactly (inexact format round trips are C02's subject)",
         "to_scale/to_format lru_caches are cleared at the start of every history; histories read at most ~110 objects (cache size 128)",
-        "operations on 0-d results are limited to view/copy/deepcopy/scale/insert-as-b/write; integer index is a Python int",
+        "a single epoch of the other scale is inserted only when its derived format is not served in array shape by the "
+        "value-keyed cache; gps_ws <- other format/scale inserts are checked by the insert oracle only (open finding)",
         "flags.writeable = True, setflags(write=True) and direct __dict__ access are deliberate circumvention, outside the property",
     ]
     return ctx.finish(
